@@ -42,7 +42,9 @@ Inductive ew :=
 | WState (r : N)                                  (* trie.Database.Commit of a root not yet on disk *)
 | WRcpt (b : N)
 | WLook (t b : N) | WUnlook (t : N)
-| WHeadH (b : N) | WCanon (n b : N) | WHeadB (b : N).
+| WHeadH (b : N) | WCanon (n b : N) | WHeadB (b : N)
+| WUncanon (n : N).   (* rawdb.DeleteCanonicalHash: never issued by the import paths of the code as it is;
+                         present so that an observed deletion is a comparable write, not a harness failure *)
 
 Definition write := list ew.   (* one direct write, or the content of one atomic batch *)
 
@@ -75,6 +77,7 @@ Definition apply_ew (e : ew) (d : disk) : disk :=
   | WHeadH b => mkD (d_body d) (d_hnum d) (d_hdr d) (d_state d) (d_rcpt d) (d_look d) (d_canon d) b (d_headB d)
   | WCanon n b => mkD (d_body d) (d_hnum d) (d_hdr d) (d_state d) (d_rcpt d) (d_look d) (aset n b (d_canon d)) (d_headH d) (d_headB d)
   | WHeadB b => mkD (d_body d) (d_hnum d) (d_hdr d) (d_state d) (d_rcpt d) (d_look d) (d_canon d) (d_headH d) b
+  | WUncanon n => mkD (d_body d) (d_hnum d) (d_hdr d) (d_state d) (d_rcpt d) (d_look d) (aremove n (d_canon d)) (d_headH d) (d_headB d)
   end.
 
 Definition apply_write (w : write) (d : disk) : disk := fold_left (fun d e => apply_ew e d) w d.
@@ -568,7 +571,7 @@ Definition obs_ok (s : st) (o : obs) : bool :=
 Definition ew_eqb (a b : ew) : bool :=
   match a, b with
   | WBody x, WBody y | WHNum x, WHNum y | WHdr x, WHdr y | WState x, WState y
-  | WRcpt x, WRcpt y | WUnlook x, WUnlook y | WHeadH x, WHeadH y | WHeadB x, WHeadB y => x =? y
+  | WRcpt x, WRcpt y | WUnlook x, WUnlook y | WHeadH x, WHeadH y | WHeadB x, WHeadB y | WUncanon x, WUncanon y => x =? y
   | WLook x1 x2, WLook y1 y2 | WCanon x1 x2, WCanon y1 y2 => (x1 =? y1) && (x2 =? y2)
   | _, _ => false
   end.
